@@ -271,3 +271,333 @@ Proof.
   rewrite (proj2 (Z.eqb_neq p 1)) by lia. reflexivity.
 Qed.
 
+
+From Coq Require Import Zpow_facts.
+(** *** powmod *)
+Lemma pow_pos_spec m x e : m <> 0 -> pow_pos m x e = (x ^ Zpos e) mod m.
+Proof.
+  intros Hm. induction e as [e IH|e IH|]; cbn [pow_pos].
+  - rewrite IH. rewrite Pos2Z.inj_xI.
+    replace (2 * Z.pos e + 1) with (Z.pos e + Z.pos e + 1) by lia.
+    rewrite !Z.pow_add_r, Z.pow_1_r by lia.
+    rewrite <- (Z.mul_mod_idemp_l (x ^ Z.pos e * x ^ Z.pos e)) by exact Hm.
+    rewrite (Z.mul_mod (x ^ Z.pos e) (x ^ Z.pos e)) by exact Hm. reflexivity.
+  - rewrite IH. rewrite Pos2Z.inj_xO.
+    replace (2 * Z.pos e) with (Z.pos e + Z.pos e) by lia.
+    rewrite Z.pow_add_r by lia. rewrite <- Z.mul_mod by exact Hm. reflexivity.
+  - rewrite Z.pow_1_r. reflexivity.
+Qed.
+
+Section Laws.
+Variable p : Z.
+Hypothesis Hp : prime p.
+Let Hp2 := prime_ge_2 p Hp.
+Let Hn0 : p <> 0. Proof. lia. Qed.
+
+Definition red (a : Z) : Prop := 0 <= a < p.
+
+Lemma mk_red v : red (mk p v).
+Proof. unfold red, mk. apply Z.mod_pos_bound. lia. Qed.
+Lemma mk_id a : red a -> mk p a = a.
+Proof. unfold red, mk. intros H. apply Z.mod_small. exact H. Qed.
+Lemma mk_mk v : mk p (mk p v) = mk p v.
+Proof. apply mk_id, mk_red. Qed.
+
+(** values stay reduced: every operator result is in [0, p) *)
+Definition red_res (r : result Z) : Prop := match r with Ok v => red v | Err _ => True end.
+
+Lemma bind_red (r : result Z) f : (forall v, red (f v)) -> red_res (bind r (fun v => Ok (f v))).
+Proof. intros H. destruct r; simpl; auto. Qed.
+
+Theorem ops_reduced a o n :
+  red (add p a o) /\ red (radd p a n) /\ red (iadd p a o) /\
+  red (sub p a o) /\ red (rsub p a n) /\ red (isub p a o) /\
+  red (mul p a o) /\ red (rmul p a n) /\ red (imul p a o) /\
+  red (neg p a) /\ red (pos p a) /\
+  red_res (truediv p a o) /\ red_res (rtruediv p a n) /\ red_res (itruediv p a o) /\
+  red_res (reciprocal p a) /\ red_res (pow p a n) /\
+  red_res (lshift p a n) /\ red_res (ilshift p a n) /\ red_res (rshift p a n) /\ red_res (irshift p a n).
+Proof.
+  repeat split; try apply mk_red; try (apply Z.mod_pos_bound; lia);
+    unfold truediv, rtruediv, itruediv, reciprocal, pow, lshift, ilshift, rshift, irshift;
+    try (apply bind_red; intros; try apply mk_red; apply Z.mod_pos_bound; lia).
+Qed.
+
+(** in-place forms compute the same value as the binary forms *)
+Theorem inplace_eq_binary a o n :
+  iadd p a o = add p a o /\ isub p a o = sub p a o /\ imul p a o = mul p a o /\
+  itruediv p a o = truediv p a o /\ ilshift p a n = lshift p a n /\ irshift p a n = rshift p a n.
+Proof. repeat split. Qed.
+
+(** reflected forms (int on the left) equal the binary form on the converted int, operands swapped *)
+Theorem reflected_eq a n : red a ->
+  radd p a n = add p (mk p n) (El a) /\
+  rsub p a n = sub p (mk p n) (El a) /\
+  rmul p a n = mul p (mk p n) (El a) /\
+  rtruediv p a n = truediv p (mk p n) (El a).
+Proof.
+  intros Ha. unfold radd, add, rsub, sub, rmul, mul, rtruediv, truediv, reciprocal, mk; cbn [raw].
+  repeat split.
+  - rewrite Z.add_mod_idemp_l by lia. f_equal. ring.
+  - rewrite Zminus_mod_idemp_l. reflexivity.
+  - rewrite Z.mul_mod_idemp_l by lia. f_equal. ring.
+  - unfold reciprocal_. destruct (invert a p) as [r|e]; cbn [bind]; [|reflexivity].
+    f_equal. unfold mul, mk; cbn [raw]. rewrite Z.mul_mod_idemp_l by lia.
+    rewrite Z.mul_mod_idemp_l by lia. f_equal. ring.
+Qed.
+
+(** mixing in an int equals converting it first *)
+Theorem mix_int_eq_convert_first a n :
+  add p a (Int n) = add p a (El (mk p n)) /\
+  sub p a (Int n) = sub p a (El (mk p n)) /\
+  mul p a (Int n) = mul p a (El (mk p n)) /\
+  eq p a (Int n) = eq p a (El (mk p n)).
+Proof.
+  unfold add, sub, mul, eq, mk; cbn [raw]. repeat split.
+  - rewrite Z.add_mod_idemp_r by lia. reflexivity.
+  - rewrite Zminus_mod_idemp_r. reflexivity.
+  - rewrite Z.mul_mod_idemp_r by lia. reflexivity.
+Qed.
+
+(** ... also for division, where the conversion matters to the Euclid loop's input *)
+Lemma invert_mod_res x :
+  match invert x p, invert (x mod p) p with
+  | Ok y, Ok y' => y mod p = y' mod p
+  | Err ZeroDiv, Err ZeroDiv => True
+  | _, _ => False
+  end.
+Proof.
+  destruct (Z.eq_dec (x mod p) 0) as [E|E].
+  - rewrite (invert_zero p x Hp E). rewrite (invert_zero p (x mod p) Hp); [exact I|].
+    rewrite Z.mod_mod by lia. exact E.
+  - destruct (invert_ok p x Hp E) as [y [Ey Hy]].
+    assert (E' : (x mod p) mod p <> 0) by (rewrite Z.mod_mod by lia; exact E).
+    destruct (invert_ok p (x mod p) Hp E') as [y' [Ey' Hy']].
+    rewrite Ey, Ey'.
+    rewrite Z.mul_mod_idemp_l in Hy' by lia.
+    transitivity ((y * (x * y')) mod p).
+    + rewrite <- Z.mul_mod_idemp_r by lia. rewrite Hy'. rewrite Z.mul_1_r. reflexivity.
+    + replace (y * (x * y')) with ((x * y) * y') by ring.
+      rewrite <- Z.mul_mod_idemp_l by lia. rewrite Hy. rewrite Z.mul_1_l. reflexivity.
+Qed.
+
+Theorem mix_int_div_eq_convert_first a n :
+  truediv p a (Int n) = truediv p a (El (mk p n)).
+Proof.
+  unfold truediv, reciprocal_, mk; cbn [raw].
+  pose proof (invert_mod_res n) as H.
+  destruct (invert n p) as [y|[]], (invert (n mod p) p) as [y'|[]]; try contradiction; cbn [bind]; try reflexivity.
+  f_equal. unfold mul, mk; cbn [raw].
+  rewrite <- (Z.mul_mod_idemp_r a y), H, Z.mul_mod_idemp_r by lia. reflexivity.
+Qed.
+
+(** only zero has no inverse; a * reciprocal a = 1 *)
+Theorem only_zero_noninvertible a : red a ->
+  (a = 0 -> reciprocal p a = Err ZeroDiv) /\
+  (a <> 0 -> exists r, reciprocal p a = Ok r /\ red r /\ mul p a (El r) = 1).
+Proof.
+  intros Ha. split.
+  - intros ->. unfold reciprocal, reciprocal_. rewrite (invert_zero p 0 Hp); [reflexivity|].
+    apply Z.mod_0_l; lia.
+  - intros Hne. assert (E : a mod p <> 0) by (rewrite Z.mod_small by exact Ha; exact Hne).
+    destruct (invert_ok p a Hp E) as [y [Ey Hy]].
+    exists (mk p y). unfold reciprocal, reciprocal_. rewrite Ey. cbn [bind]. split; [reflexivity|].
+    split; [apply mk_red|]. unfold mul, mk; cbn [raw]. rewrite Z.mul_mod_idemp_r by lia. exact Hy.
+Qed.
+
+(** division is multiplication by the reciprocal and inverts multiplication *)
+Theorem div_spec a b : red a -> red b ->
+  (b = 0 -> truediv p a (El b) = Err ZeroDiv) /\
+  (b <> 0 -> exists c r, truediv p a (El b) = Ok c /\ reciprocal p b = Ok r /\
+                         c = mul p a (El r) /\ mul p c (El b) = a).
+Proof.
+  intros Ha Hb. split.
+  - intros ->. unfold truediv, reciprocal_; cbn [raw]. rewrite (invert_zero p 0 Hp); [reflexivity|].
+    apply Z.mod_0_l; lia.
+  - intros Hne. assert (E : b mod p <> 0) by (rewrite Z.mod_small by exact Hb; exact Hne).
+    destruct (invert_ok p b Hp E) as [y [Ey Hy]].
+    exists (mul p a (Int y)), (mk p y). unfold truediv, reciprocal, reciprocal_; cbn [raw]. rewrite Ey. cbn [bind].
+    repeat split.
+    + unfold mul, mk; cbn [raw]. rewrite Z.mul_mod_idemp_r by lia. reflexivity.
+    + unfold mul, mk; cbn [raw]. rewrite Z.mul_mod_idemp_l by lia.
+      replace (a * y * b) with (a * (b * y)) by ring.
+      rewrite <- Z.mul_mod_idemp_r, Hy, Z.mul_1_r by lia. apply Z.mod_small. exact Ha.
+Qed.
+
+(** exponentiation: square-and-multiply = iterated product; negative exponents via the inverse *)
+Lemma pow_iter_spec a n : pow_iter p a n = (a ^ Z.of_nat n) mod p.
+Proof.
+  induction n as [|n IH].
+  - reflexivity.
+  - cbn [pow_iter]. rewrite IH. unfold mul, mk; cbn [raw].
+    rewrite Z.mul_mod_idemp_l by lia. rewrite Nat2Z.inj_succ, Z.pow_succ_r by lia.
+    f_equal. ring.
+Qed.
+
+Theorem pow_eq_repeat a (n : nat) : pow p a (Z.of_nat n) = Ok (pow_iter p a n).
+Proof.
+  rewrite pow_iter_spec. unfold pow, powmod. destruct n as [|n].
+  - cbn [Z.of_nat bind]. unfold mk. rewrite Z.mod_mod by lia. reflexivity.
+  - change (Z.of_nat (S n)) with (Z.pos (Pos.of_succ_nat n)). cbn [bind].
+    rewrite pow_pos_spec by lia. unfold mk. rewrite Z.mod_mod by lia. reflexivity.
+Qed.
+
+Theorem pow_negative a (n : nat) : red a -> n <> O ->
+  (a = 0 -> pow p a (- Z.of_nat n) = Err ValueE) /\
+  (a <> 0 -> exists r, reciprocal p a = Ok r /\ pow p a (- Z.of_nat n) = Ok (pow_iter p r n)).
+Proof.
+  intros Ha Hn. destruct n as [|n]; [contradiction|].
+  change (- Z.of_nat (S n)) with (Z.neg (Pos.of_succ_nat n)).
+  split.
+  - intros ->. unfold pow, powmod. rewrite (invert_zero p 0 Hp); [reflexivity|]. apply Z.mod_0_l; lia.
+  - intros Hne. assert (E : a mod p <> 0) by (rewrite Z.mod_small by exact Ha; exact Hne).
+    destruct (invert_ok p a Hp E) as [y [Ey Hy]].
+    exists (mk p y). unfold reciprocal, reciprocal_, pow, powmod. rewrite Ey. cbn [bind]. split; [reflexivity|].
+    rewrite pow_iter_spec, pow_pos_spec by lia. unfold mk. rewrite Z.mod_mod by lia.
+    change (Z.pos (Pos.of_succ_nat n)) with (Z.of_nat (S n)).
+    f_equal. rewrite <- Zpower_mod by lia. reflexivity.
+Qed.
+
+(** shifts: multiplication / division by 2^n *)
+Theorem shift_eq_mul_div_pow2 a n : 0 <= n ->
+  lshift p a n = Ok (mul p a (Int (2 ^ n))) /\
+  rshift p a n = truediv p a (Int (2 ^ n)).
+Proof.
+  intros Hn. unfold lshift, rshift, reciprocal2, truediv, shl.
+  rewrite (proj2 (Z.ltb_ge n 0) Hn). cbn [bind raw]. rewrite !Z.shiftl_mul_pow2 by exact Hn.
+  rewrite Z.mul_1_l. split; reflexivity.
+Qed.
+
+Theorem shift_negative a n : n < 0 -> lshift p a n = Err ValueE /\ rshift p a n = Err ValueE.
+Proof.
+  intros Hn. unfold lshift, rshift, reciprocal2, shl. rewrite (proj2 (Z.ltb_lt n 0) Hn). split; reflexivity.
+Qed.
+
+(** for odd p shifting right undoes shifting left *)
+Theorem rshift_lshift a n : red a -> 0 <= n -> p <> 2 ->
+  exists b, lshift p a n = Ok b /\ rshift p b n = Ok a.
+Proof.
+  intros Ha Hn H2. destruct (shift_eq_mul_div_pow2 a n Hn) as [E1 _].
+  eexists; split; [exact E1|].
+  destruct (shift_eq_mul_div_pow2 (mul p a (Int (2 ^ n))) n Hn) as [_ E2]. rewrite E2.
+  assert (E : (2 ^ n) mod p <> 0).
+  { intros Hd. apply Zmod_divide in Hd; [|lia].
+    assert (Hd2 : (p | 2)).
+    { revert Hd. pattern n. apply natlike_ind; [| |exact Hn].
+      - rewrite Z.pow_0_r. intros Hd. apply Z.divide_1_r_nonneg in Hd; lia.
+      - intros k Hk IH Hd. rewrite Z.pow_succ_r in Hd by exact Hk.
+        apply prime_mult in Hd; [|exact Hp]. destruct Hd as [Hd|Hd]; [exact Hd|apply IH, Hd]. }
+    apply Z.divide_pos_le in Hd2; lia. }
+  destruct (invert_ok p (2 ^ n) Hp E) as [y [Ey Hy]].
+  unfold truediv, reciprocal_; cbn [raw]. rewrite Ey. cbn [bind]. f_equal.
+  unfold mul, mk; cbn [raw]. rewrite Z.mul_mod_idemp_l by lia.
+  replace (a * 2 ^ n * y) with (a * (2 ^ n * y)) by ring.
+  rewrite <- Z.mul_mod_idemp_r, Hy, Z.mul_1_r by lia. apply Z.mod_small. exact Ha.
+Qed.
+
+(** equality and truth value *)
+Theorem eq_spec a b n : red a -> red b ->
+  (eq p a (El b) = true <-> a = b) /\ (eq p a (Int n) = true <-> (a - n) mod p = 0) /\
+  (truth a = true <-> a <> 0).
+Proof.
+  intros Ha Hb. unfold eq, truth. repeat split.
+  - apply Z.eqb_eq.
+  - apply Z.eqb_eq.
+  - intros E. apply Z.eqb_eq in E. rewrite E. rewrite Zminus_mod_idemp_l, Z.sub_diag. apply Z.mod_0_l; lia.
+  - intros E. apply Z.eqb_eq. unfold red in Ha.
+    assert (Hm : 0 <= n mod p < p) by (apply Z.mod_pos_bound; lia).
+    rewrite Zminus_mod in E. rewrite (Z.mod_small a) in E by lia.
+    assert (Hs : - p < a - n mod p < p) by lia.
+    destruct (Z.eq_dec (a - n mod p) 0) as [Z0|NZ]; [lia|exfalso].
+    destruct (Z_lt_le_dec (a - n mod p) 0).
+    + rewrite <- (Z.mod_add _ 1) in E by lia. rewrite Z.mod_small in E by lia. lia.
+    + rewrite Z.mod_small in E by lia. lia.
+  - intros E Hz. subst a. discriminate.
+  - intros E. destruct (a =? 0) eqn:Ez; [apply Z.eqb_eq in Ez; contradiction|reflexivity].
+Qed.
+
+(** *** the field laws, on reduced representatives *)
+Theorem field_laws a b c : red a -> red b -> red c ->
+  add p a (El b) = add p b (El a) /\
+  add p (add p a (El b)) (El c) = add p a (El (add p b (El c))) /\
+  add p a (El 0) = a /\
+  add p a (El (neg p a)) = 0 /\
+  sub p a (El b) = add p a (El (neg p b)) /\
+  mul p a (El b) = mul p b (El a) /\
+  mul p (mul p a (El b)) (El c) = mul p a (El (mul p b (El c))) /\
+  mul p a (El 1) = a /\
+  mul p a (El (add p b (El c))) = add p (mul p a (El b)) (El (mul p a (El c))) /\
+  1 mod p <> 0 mod p.
+Proof.
+  intros Ha Hb Hc. unfold add, sub, mul, neg, mk; cbn [raw]. unfold red in *.
+  repeat split.
+  - f_equal; ring.
+  - rewrite Z.add_mod_idemp_l, Z.add_mod_idemp_r by lia. f_equal; ring.
+  - rewrite Z.add_0_r. apply Z.mod_small; lia.
+  - rewrite Z.add_mod_idemp_r by lia. rewrite Z.add_opp_diag_r. apply Z.mod_0_l; lia.
+  - rewrite Z.add_mod_idemp_r by lia. f_equal; ring.
+  - f_equal; ring.
+  - rewrite Z.mul_mod_idemp_l, Z.mul_mod_idemp_r by lia. f_equal; ring.
+  - rewrite Z.mul_1_r. apply Z.mod_small; lia.
+  - rewrite Z.mul_mod_idemp_r by lia. rewrite <- Z.add_mod by lia. f_equal; ring.
+  - rewrite Z.mod_1_l, Z.mod_0_l by lia. lia.
+Qed.
+
+End Laws.
+
+(** *** the model operators as a [field_theory] on the carrier [Zp p] *)
+Definition unres (r : result Z) : Z := match r with Ok v => v | Err _ => 0 end.
+
+Definition FFOps (p : Z) : Ops :=
+  {| car := Zp p;
+     f0 := mkZp p 0; f1 := mkZp p 1;
+     fadd := fun a b => mkZp p (add p (zval a) (El (zval b)));
+     fmul := fun a b => mkZp p (mul p (zval a) (El (zval b)));
+     fsub := fun a b => mkZp p (sub p (zval a) (El (zval b)));
+     fopp := fun a => mkZp p (neg p (zval a));
+     fdiv := fun a b => mkZp p (unres (truediv p (zval a) (El (zval b))));
+     finv := fun a => mkZp p (unres (reciprocal p (zval a))) |}.
+
+Lemma zval_redp p (a : Zp p) : prime p -> red p (zval a).
+Proof.
+  intros Hp. pose proof (prime_ge_2 p Hp). unfold red. rewrite <- (zval_red p a). apply Z.mod_pos_bound. lia.
+Qed.
+
+Theorem FF_field_theory p : prime p ->
+  field_theory (f0 (FFOps p)) (f1 (FFOps p)) (fadd (FFOps p)) (fmul (FFOps p)) (fsub (FFOps p))
+               (fopp (FFOps p)) (fdiv (FFOps p)) (finv (FFOps p)) (@Logic.eq (Zp p)).
+Proof.
+  intros Hp. pose proof (prime_ge_2 p Hp) as Hp2.
+  assert (R : forall a : Zp p, red p (zval a)) by (intros; apply zval_redp; exact Hp).
+  assert (Z0 : zval (mkZp p 0) = 0) by (rewrite zval_mkZp; apply Z.mod_0_l; lia).
+  assert (Z1 : zval (mkZp p 1) = 1) by (rewrite zval_mkZp; apply Z.mod_1_l; lia).
+  constructor; [constructor| | |]; cbn [FFOps f0 f1 fadd fmul fsub fopp fdiv finv car]; intros.
+  1-9: apply Zp_eq; rewrite !zval_mkZp; unfold add, mul, sub, neg, mk; cbn [raw]; rewrite ?Z.mod_mod by lia.
+  - apply zval_red.
+  - f_equal; ring.
+  - rewrite Z.add_mod_idemp_l, Z.add_mod_idemp_r by lia. f_equal; ring.
+  - rewrite Z.mod_1_l, Z.mul_1_l by lia. apply zval_red.
+  - f_equal; ring.
+  - rewrite Z.mul_mod_idemp_l, Z.mul_mod_idemp_r by lia. f_equal; ring.
+  - rewrite Z.mul_mod_idemp_l by lia. rewrite <- Z.add_mod by lia. f_equal; ring.
+  - rewrite Z.add_mod_idemp_r by lia. f_equal; ring.
+  - rewrite Z.add_mod_idemp_r by lia. f_equal; ring.
+  - intros E. apply (f_equal zval) in E. rewrite Z0, Z1 in E. lia.
+  - apply Zp_eq. rewrite !zval_mkZp. f_equal.
+    fold (mk p (unres (reciprocal p (zval q)))).
+    unfold truediv, reciprocal, reciprocal_; cbn [raw].
+    destruct (invert (zval q) p) as [y|e]; cbn [bind unres].
+    + rewrite mk_mk by exact Hp. unfold mul, mk; cbn [raw]. rewrite Z.mul_mod_idemp_r by lia. reflexivity.
+    + unfold mul, mk; cbn [raw]. rewrite Z.mod_0_l, Z.mul_0_r, Z.mod_0_l by lia. reflexivity.
+  - apply Zp_eq. rewrite zval_mkZp, Z1.
+    assert (Hne : zval p0 <> 0).
+    { intros E. apply H. apply Zp_eq. rewrite Z0. exact E. }
+    destruct (only_zero_noninvertible p Hp (zval p0) (R p0)) as [_ Hi].
+    destruct (Hi Hne) as [r [Er [Rr Hm]]]. rewrite Er. cbn [unres].
+    rewrite zval_mkZp. rewrite (Z.mod_small r p) by exact Rr.
+    destruct (field_laws p Hp r (zval p0) (zval p0)) as (_ & _ & _ & _ & _ & C & _); auto.
+    rewrite C, Hm. apply Z.mod_1_l. lia.
+Qed.
+
+Definition FFField (p : Z) (Hp : prime p) : FieldT :=
+  {| fops := FFOps p; fth := FF_field_theory p Hp; feq_dec := Zp_dec p |}.
